@@ -1175,3 +1175,686 @@ Proof. intros T. apply ptrace_cinv. eapply xtrace_ptrace, T. Qed.
 
 Lemma steps_cinv s s' X : steps s s' -> cinv X s -> exists X', cinv (X ++ X') s'.
 Proof. intros [X' T] CI. exists X'. eapply ptrace_cinv; eassumption. Qed.
+
+(* ------------------------------------------------------------------------------------------------ *)
+(* the counting invariant, relative to the callbacks [l] of the popped event [e] still to be run *)
+
+(* c has been detached by an enclosing condition d that was processed (_remove_check_callbacks is recursive) *)
+Definition detached (s : state) (c : evid) : Prop := exists d, desc s d c /\ d <> c /\ is_proc s d = true.
+
+Definition attached (s : state) (c : evid) (ops : list evid) : Prop :=
+  forall o oev lo, get_event o s = Some oev -> cbs oev = Some lo -> cbcount (CbCheck c) lo = occ o ops.
+
+Definition nofail (l : list cb) (e : evid) (s : state) (c : evid) (ops : list evid) : Prop :=
+  forall o oev, In o ops -> get_event o s = Some oev -> cbs oev = None -> is_failed oev = true ->
+                (exists q, kind oev = KProcess q) \/ (o = e /\ In (CbCheck c) l).
+
+Definition binv (l : list cb) (e : evid) (s : state) : Prop :=
+  forall c cev all ops n, get_event c s = Some cev -> kind cev = KCond all ops n ->
+    (n + cbcount (CbCheck c) l <= procpos s ops)%nat /\
+    (out cev = None -> detached s c \/
+       (attached s c ops /\ (n + cbcount (CbCheck c) l)%nat = procpos s ops /\ nofail l e s c ops)).
+
+(* the callbacks in flight belong to e: every _check in l is the _check of a condition having e as operand, a
+   _build_value in l is e's own *)
+Definition chk_ok (s : state) (e c : evid) : Prop :=
+  exists cev all ops n, get_event c s = Some cev /\ kind cev = KCond all ops n /\ In e ops.
+
+Definition wl (l : list cb) (e : evid) (s : state) : Prop :=
+  (forall c, In (CbCheck c) l -> chk_ok s e c) /\ (forall c, In (CbBuild c) l -> c = e).
+
+Lemma chk_ok_opnd s e c : chk_ok s e c -> opnd s c e.
+Proof. intros (cev & all & ops & n & H & K & I) cev' all' ops' n' H' K'. rewrite H in H'. injection H' as <-. rewrite K in K'. injection K' as <- <- <-. exact I. Qed.
+
+Lemma chk_ok_grows s s' e c : grows s s' -> chk_ok s e c -> chk_ok s' e c.
+Proof.
+  intros [G _] (cev & all & ops & n & H & K & I). destruct (G _ _ H) as (cev' & H' & KL & _).
+  destruct (kind_le_cond_fwd _ _ _ _ _ KL K) as (n' & K' & _). exists cev', all, ops, n'. auto.
+Qed.
+
+Lemma wl_grows l e s s' : grows s s' -> wl l e s -> wl l e s'.
+Proof. intros G [W1 W2]. split; [intros c H; eapply chk_ok_grows; eauto|exact W2]. Qed.
+
+Lemma wl_tail cb l e s : wl (cb :: l) e s -> wl l e s.
+Proof. intros [W1 W2]. split; intros c H; [apply W1|apply W2]; right; exact H. Qed.
+
+Lemma wl_nil e s : wl [] e s. Proof. split; intros c []. Qed.
+
+(* stability of the ingredients *)
+Lemma is_proc_grows s s' o : grows s s' -> is_proc s o = true -> is_proc s' o = true.
+Proof. intros G H. apply is_proc_iff. eapply grows_processed; [exact G|]. apply is_proc_iff, H. Qed.
+
+Lemma desc_grows s s' c d : grows s s' -> desc s c d -> desc s' c d.
+Proof.
+  intros [G _] H. induction H as [|d dev all ops n o H IH Hd Kd Io]; [constructor|].
+  destruct (G _ _ Hd) as (dev' & Hd' & KL & _). destruct (kind_le_cond_fwd _ _ _ _ _ KL Kd) as (n' & K' & _).
+  eapply desc_step; [exact IH|exact Hd'|exact K'|exact Io].
+Qed.
+
+Lemma detached_grows s s' c : grows s s' -> detached s c -> detached s' c.
+Proof. intros G (d & D & N & P). exists d. split; [eapply desc_grows; eauto|]. split; [exact N|eapply is_proc_grows; eauto]. Qed.
+
+(* dropping a callback that is not a _check from the list in flight *)
+Lemma binv_drop cb l e s : (forall c, cb <> CbCheck c) -> binv (cb :: l) e s -> binv l e s.
+Proof.
+  intros N B c cev all ops n Hc Kc. destruct (B _ _ _ _ _ Hc Kc) as (B1 & B2).
+  assert (E : cbcount (CbCheck c) (cb :: l) = cbcount (CbCheck c) l).
+  { rewrite cbcount_cons. assert (X : cb_eqb (CbCheck c) cb = false) by (apply cb_eqb_neq; intros H; apply (N c); auto). rewrite X. reflexivity. }
+  rewrite E in *. split; [exact B1|]. intros O. destruct (B2 O) as [D|(A & Q & F)]; [left; exact D|right].
+  split; [exact A|]. split; [exact Q|]. intros o oev Io Ho Co Fo. destruct (F _ _ Io Ho Co Fo) as [K|(-> & [H|H])]; auto.
+  exfalso. apply (N c). exact H.
+Qed.
+
+Lemma kinds_eq_desc s s' c d : kinds_eq s s' -> desc s' c d -> desc s c d.
+Proof. intros K. apply desc_kinds_eq, kinds_eq_sym, K. Qed.
+
+(* a change of one event that keeps kinds, processedness and the numbers of _check callbacks *)
+Lemma binv_upd X l e s e0 f ev :
+  cinv X s -> binv l e s -> get_event e0 s = Some ev ->
+  kind (f ev) = kind ev -> (cbs ev = None <-> cbs (f ev) = None) ->
+  (forall l0 l1, cbs ev = Some l0 -> cbs (f ev) = Some l1 -> forall c, cbcount (CbCheck c) l1 = cbcount (CbCheck c) l0) ->
+  (ostat (out (f ev)) = ostat (out ev) \/ out ev = None \/ exists q, kind ev = KProcess q) ->
+  binv l e (upd_event e0 f s).
+Proof.
+  intros CI B He Uk Uc Ul Uo.
+  set (s' := upd_event e0 f s).
+  assert (G : forall e1 ev1', get_event e1 s' = Some ev1' ->
+                (e1 = e0 /\ ev1' = f ev) \/ (e1 <> e0 /\ get_event e1 s = Some ev1')).
+  { intros e1 ev1'. unfold s'. rewrite get_upd. destruct (Nat.eqb e1 e0) eqn:E.
+    - apply Nat.eqb_eq in E. subst e1. rewrite He. cbn. intros H; injection H as <-. left; auto.
+    - apply Nat.eqb_neq in E. intros H. right; auto. }
+  assert (KE : kinds_eq s s').
+  { intros e1. unfold s'. rewrite get_upd. destruct (Nat.eqb e1 e0) eqn:E; [|reflexivity].
+    apply Nat.eqb_eq in E. subst e1. rewrite He. cbn. rewrite Uk. reflexivity. }
+  assert (IP : forall o, is_proc s' o = is_proc s o).
+  { intros o. unfold is_proc, s'. rewrite get_upd. destruct (Nat.eqb o e0) eqn:E; [|reflexivity].
+    apply Nat.eqb_eq in E. subst o. rewrite He. cbn. unfold is_processed.
+    destruct (cbs ev) eqn:C1, (cbs (f ev)) eqn:C2; try reflexivity.
+    - destruct Uc as [_ U]. specialize (U eq_refl). discriminate.
+    - destruct Uc as [U _]. specialize (U eq_refl). discriminate. }
+  assert (PPe : forall ops, procpos s' ops = procpos s ops) by (intros; apply procpos_ext; intros; apply IP).
+  assert (DT : forall c, detached s c -> detached s' c).
+  { intros c (d & D & N & P). exists d. split; [eapply desc_kinds_eq; eauto|]. split; [exact N|rewrite IP; exact P]. }
+  intros c cev' all ops n Hc Kc.
+  assert (Old : exists cev, get_event c s = Some cev /\ kind cev = KCond all ops n /\ (out cev' = None -> out cev = None)).
+  { destruct (G _ _ Hc) as [[-> ->]|[_ Hc']].
+    - exists ev. split; [exact He|]. split; [congruence|]. intros O.
+      destruct Uo as [E|[E|(q & E)]]; [rewrite O in E; destruct (out ev) as [[?|?]|]; cbn in E; congruence|exact E|rewrite Uk in Kc; congruence].
+    - exists cev'. auto. }
+  destruct Old as (cev & Hc0 & Kc0 & Oc0). destruct (B _ _ _ _ _ Hc0 Kc0) as (B1 & B2).
+  rewrite PPe. split; [exact B1|]. intros O. destruct (B2 (Oc0 O)) as [D|(A & Q & F)]; [left; apply DT, D|right].
+  split; [|split; [exact Q|]].
+  - intros o oev' lo Ho Co. destruct (G _ _ Ho) as [[-> ->]|[_ Ho']].
+    + destruct (cbs ev) as [l0|] eqn:C0.
+      * rewrite (Ul _ _ eq_refl Co). eapply A; eassumption.
+      * destruct Uc as [U _]. specialize (U eq_refl). congruence.
+    + eapply A; eassumption.
+  - intros o oev' Io Ho Co Fo. destruct (G _ _ Ho) as [[-> ->]|[_ Ho']].
+    + assert (C0 : cbs ev = None) by (apply Uc, Co).
+      destruct Uo as [E|[E|(q & E)]].
+      * rewrite Uk. eapply F; try eassumption. unfold is_failed in *.
+        destruct (out (f ev)) as [[?|?]|], (out ev) as [[?|?]|]; cbn in E; congruence.
+      * exfalso. exact (ci_proc_trig _ _ CI _ _ He C0 E).
+      * left. exists q. congruence.
+    + eapply F; eassumption.
+Qed.
+
+Lemma binv_same_events l e s s' : events s' = events s -> binv l e s -> binv l e s'.
+Proof.
+  intros E B.
+  assert (G : forall x, get_event x s' = get_event x s) by (intros; unfold get_event; rewrite E; reflexivity).
+  assert (IP : forall o, is_proc s' o = is_proc s o) by (intros; unfold is_proc; rewrite G; reflexivity).
+  assert (KE : kinds_eq s s') by (intros x; rewrite G; reflexivity).
+  intros c cev all ops n Hc Kc. rewrite G in Hc. destruct (B _ _ _ _ _ Hc Kc) as (B1 & B2).
+  rewrite (procpos_ext s s' ops) by (intros; apply IP). split; [exact B1|]. intros O.
+  destruct (B2 O) as [(d & D & N & P)|(A & Q & F)].
+  - left. exists d. split; [eapply desc_kinds_eq; eauto|]. split; [exact N|rewrite IP; exact P].
+  - right. split; [|split; [exact Q|]].
+    + intros o oev lo. rewrite G. apply A.
+    + intros o oev Io. rewrite G. apply F, Io.
+Qed.
+
+Lemma binv_new_plain X l e ev s : cinv X s -> plain_new ev -> binv l e s -> binv l e (snd (new_event ev s)).
+Proof.
+  intros CI ((l0 & Cl0 & Pl0) & Kn) B.
+  set (s' := snd (new_event ev s)).
+  assert (GR : grows s s') by apply grows_new.
+  assert (G : forall x ev', get_event x s' = Some ev' -> (get_event x s = Some ev') \/ (x = length (events s) /\ ev' = ev)).
+  { intros x ev'. unfold s'. rewrite get_new. destruct (Nat.ltb x (length (events s))); [auto|].
+    destruct (Nat.eqb x (length (events s))) eqn:E; [|discriminate]. apply Nat.eqb_eq in E. intros H; injection H as <-. auto. }
+  intros c cev all ops n Hc Kc. destruct (G _ _ Hc) as [Hc0|[-> ->]]; [|rewrite Kc in Kn; contradiction].
+  assert (Lt : forall o, In o ops -> (o < length (events s))%nat).
+  { intros o Io. pose proof (ci_older _ _ CI _ _ _ _ _ Hc0 Kc _ Io). apply get_lt in Hc0. lia. }
+  assert (PPe : procpos s' ops = procpos s ops).
+  { apply procpos_ext. intros o Io. unfold is_proc, s'. rewrite get_new_old by (apply Lt, Io). reflexivity. }
+  destruct (B _ _ _ _ _ Hc0 Kc) as (B1 & B2). rewrite PPe. split; [exact B1|]. intros O.
+  destruct (B2 O) as [D|(A & Q & F)]; [left; eapply detached_grows; eauto|right].
+  split; [|split; [exact Q|]].
+  - intros o oev lo Ho Co. destruct (G _ _ Ho) as [Ho0|[-> ->]]; [eapply A; eassumption|].
+    rewrite Cl0 in Co. injection Co as <-. rewrite occ_notin by (intros Io; apply Lt in Io; lia).
+    apply cbcount_notin. intros Hin. apply Pl0 in Hin. exact Hin.
+  - intros o oev Io Ho. destruct (G _ _ Ho) as [Ho0|[-> _]]; [apply F; assumption|apply Lt in Io; lia].
+Qed.
+
+Lemma binv_call_cond X l e all es s :
+  cinv X s -> wl l e s -> all_valid es s = true -> binv l e s -> binv l e (fst (call_cond all es s)).
+Proof.
+  intros CI [W1 _] V B. pose proof (call_cond_spec all es s V) as M. pose proof (all_valid_lt _ _ V) as Lt.
+  pose proof (grows_call_cond all es s) as GR.
+  set (s' := fst (call_cond all es s)) in *. set (c := length (events s)) in *.
+  destruct (cm_new _ _ _ _ M) as (cev & n & Hc & Kc & Cc & Le & Mo). fold c in Hc, Cc.
+  assert (IP : forall o, (o < c)%nat -> is_proc s' o = is_proc s o).
+  { intros o Lo. unfold is_proc. destruct (get_event o s) as [ev|] eqn:E; [|apply nth_error_None in E; unfold c in Lo; lia].
+    destruct (cm_old _ _ _ _ M _ _ E) as (ev' & E' & _ & _ & _ & _ & C). rewrite E'. unfold is_processed. rewrite C.
+    destruct (cbs ev); reflexivity. }
+  assert (Fresh : forall o oev lo, get_event o s = Some oev -> cbs oev = Some lo -> cbcount (CbCheck c) lo = 0%nat).
+  { intros o oev lo Ho Co. apply cbcount_notin. intros Hin.
+    destruct (ci_check _ _ CI _ _ _ _ Ho Co Hin) as (x & _ & _ & _ & Hx & _). apply get_lt in Hx. unfold c in Hx. lia. }
+  assert (FreshL : cbcount (CbCheck c) l = 0%nat).
+  { apply cbcount_notin. intros Hin. destruct (W1 _ Hin) as (x & _ & _ & _ & Hx & _). apply get_lt in Hx. unfold c in Hx. lia. }
+  intros d dev a ops m Hd Kd. destruct (Nat.eq_dec d c) as [->|Nd].
+  - (* the new condition *)
+    rewrite Hc in Hd. injection Hd as <-. rewrite Kc in Kd. injection Kd as <- <- <-.
+    assert (PPe : procpos s' es = procpos s es) by (apply procpos_ext; intros o Io; apply IP, Lt, Io).
+    rewrite PPe, FreshL, Nat.add_0_r. split; [exact Le|]. intros O. rewrite O in Mo. destruct Mo as (Ne & Mn & Me & Mf).
+    right. split; [|split; [exact Mn|]].
+    + intros o oev lo Ho Co. destruct (Nat.eq_dec o c) as [->|No].
+      * rewrite Hc in Ho. injection Ho as <-. rewrite Cc in Co. injection Co as <-.
+        rewrite occ_notin by (intros Io; apply Lt in Io; unfold c in Io; lia).
+        destruct es; [congruence|reflexivity].
+      * destruct (made_old_inv _ _ _ _ _ _ M Ho No) as (ev & He & _ & _ & _ & C). fold c in C. rewrite C in Co.
+        destruct (cbs ev) as [l0|] eqn:C0; [|discriminate]. injection Co as <-.
+        rewrite cbcount_app, (Fresh _ _ _ He C0), cbcount_repeat_same. reflexivity.
+    + intros o oev Io Ho Co Fo. exfalso.
+      assert (No : o <> c) by (apply Lt in Io; unfold c; lia).
+      destruct (made_old_inv _ _ _ _ _ _ M Ho No) as (ev & He & _ & Oe & _ & C). rewrite C in Co.
+      assert (C0 : cbs ev = None) by (destruct (cbs ev); [discriminate|reflexivity]).
+      specialize (Mf _ _ Io He C0). unfold is_failed in *. rewrite Oe in Fo. congruence.
+  - (* an older condition *)
+    destruct (made_old_inv _ _ _ _ _ _ M Hd Nd) as (dev0 & Hd0 & Kd0 & Od0 & _ & _).
+    rewrite Kd0 in Kd. destruct (B _ _ _ _ _ Hd0 Kd) as (B1 & B2).
+    assert (LtO : forall o, In o ops -> (o < c)%nat).
+    { intros o Io. pose proof (ci_older _ _ CI _ _ _ _ _ Hd0 Kd _ Io). apply get_lt in Hd0. unfold c. lia. }
+    assert (PPe : procpos s' ops = procpos s ops) by (apply procpos_ext; intros o Io; apply IP, LtO, Io).
+    rewrite PPe. split; [exact B1|]. rewrite Od0. intros O.
+    destruct (B2 O) as [D|(A & Q & F)]; [left; eapply detached_grows; eauto|right].
+    split; [|split; [exact Q|]].
+    + intros o oev lo Ho Co. destruct (Nat.eq_dec o c) as [->|No].
+      * rewrite Hc in Ho. injection Ho as <-. rewrite Cc in Co. injection Co as <-.
+        rewrite occ_notin by (intros Io; apply LtO in Io; lia).
+        destruct es; reflexivity.
+      * destruct (made_old_inv _ _ _ _ _ _ M Ho No) as (ev & He & _ & _ & _ & C). fold c in C. rewrite C in Co.
+        destruct (cbs ev) as [l0|] eqn:C0; [|discriminate]. injection Co as <-.
+        rewrite cbcount_app, cbcount_repeat_other by congruence. rewrite Nat.add_0_r. eapply A; eassumption.
+    + intros o oev Io Ho Co Fo. assert (No : o <> c) by (apply LtO in Io; lia).
+      destruct (made_old_inv _ _ _ _ _ _ M Ho No) as (ev & He & Ke & Oe & _ & C). rewrite C in Co.
+      assert (C0 : cbs ev = None) by (destruct (cbs ev); [discriminate|reflexivity]).
+      rewrite Ke. apply F; auto. unfold is_failed in *. rewrite <- Oe. exact Fo.
+Qed.
+
+(* everything program code / a process resumption does preserves the counting invariant *)
+Lemma iprim_binv X l e x s s' : cinv X s -> wl l e s -> iprim x s s' -> binv l e s -> binv l e s'.
+Proof.
+  intros CI W P B. destruct P.
+  - apply (binv_same_events l e s); [apply H|exact B].
+  - eapply binv_new_plain; eassumption.
+  - apply (binv_same_events l e s); [reflexivity|exact B].
+  - unfold add_callback. destruct (get_event e0 s) as [ev|] eqn:He; [|rewrite upd_event_none by exact He; exact B].
+    destruct (cbs ev) as [l0|] eqn:C0.
+    + eapply binv_upd; [exact CI|exact B|exact He|..]; unfold ev_add_cb; rewrite C0; cbn; auto.
+      * split; discriminate.
+      * intros l1 l2 H1 H2 c0. injection H1 as <-. injection H2 as <-. rewrite cbcount_app, cbcount_plain_single; [lia|exact H|exact I].
+    + rewrite upd_event_id; [exact B|]. intros ev0 H0. rewrite He in H0. injection H0 as <-. unfold ev_add_cb. rewrite C0. reflexivity.
+  - eapply binv_upd; [exact CI|exact B|exact H|..]; cbn; auto.
+    + rewrite H0. split; discriminate.
+    + intros l1 l2 H3 H4 c0. rewrite H0 in H3. injection H3 as <-. injection H4 as <-.
+      apply cbcount_remove_other. destruct c; try discriminate; contradiction.
+  - eapply binv_upd; [exact CI|exact B|exact H|..]; cbn; auto; try tauto.
+    intros l1 l2 H3 H4 c0. rewrite H3 in H4. injection H4 as <-. reflexivity.
+  - eapply binv_upd; [exact CI|exact B|exact H|..]; cbn; auto; try tauto.
+    + intros l1 l2 H3 H4 c0. rewrite H3 in H4. injection H4 as <-. reflexivity.
+    + right. right. exists q. exact H0.
+  - destruct (get_event e0 s) as [ev|] eqn:He; [|rewrite upd_event_none by exact He; exact B].
+    eapply binv_upd; [exact CI|exact B|exact He|..]; cbn; auto; try tauto.
+    intros l1 l2 H3 H4 c0. rewrite H3 in H4. injection H4 as <-. reflexivity.
+  - apply (binv_same_events l e s); [reflexivity|exact B].
+  - eapply binv_call_cond; eassumption.
+Qed.
+
+(* ---- the kernel's own steps ---- *)
+
+(* popping event e: its callbacks l are now in flight *)
+Lemma binv_popped X e0 m rest s ev l :
+  cinv X s -> binv [] e0 s -> pop_min (agenda s) = Some (m, rest) -> get_event (e_ev m) s = Some ev -> cbs ev = Some l ->
+  binv l (e_ev m) (popped m rest s) /\ wl l (e_ev m) (popped m rest s).
+Proof.
+  intros CI B Pm He Cl. set (e := e_ev m) in *. set (s' := popped m rest s).
+  assert (GR : grows s s') by (eapply prim_grows, p_pop, Pm).
+  assert (G : forall x, get_event x s' = if Nat.eqb x e then Some (ev_set_cbs None ev) else get_event x s).
+  { intros x. unfold s', popped. fold e. rewrite get_upd.
+    change (get_event x (pop_state m rest s)) with (get_event x s).
+    destruct (Nat.eqb x e) eqn:E; [|reflexivity]. apply Nat.eqb_eq in E. subst x. rewrite He. reflexivity. }
+  assert (IPe : is_proc s e = false) by (unfold is_proc, is_processed; rewrite He, Cl; reflexivity).
+  assert (IPe' : is_proc s' e = true) by (unfold is_proc; rewrite G, Nat.eqb_refl; reflexivity).
+  assert (IPo : forall o, o <> e -> is_proc s' o = is_proc s o).
+  { intros o N. unfold is_proc. rewrite G. apply Nat.eqb_neq in N. rewrite N. reflexivity. }
+  assert (CK : forall c, In (CbCheck c) l -> exists cev all ops n, get_event c s = Some cev /\ kind cev = KCond all ops n /\
+                                                  (cbcount (CbCheck c) l <= occ e ops)%nat).
+  { intros c Hin. eapply ci_check; eassumption. }
+  split.
+  - intros c cev' all ops n Hc Kc.
+    assert (Old : exists cev, get_event c s = Some cev /\ kind cev = KCond all ops n /\ out cev = out cev').
+    { rewrite G in Hc. destruct (Nat.eqb c e) eqn:E.
+      - apply Nat.eqb_eq in E. subst c. injection Hc as <-. exists ev. auto.
+      - exists cev'. auto. }
+    destruct Old as (cev & Hc0 & Kc0 & Oc0). destruct (B _ _ _ _ _ Hc0 Kc0) as (B1 & B2).
+    rewrite cbcount_nil, Nat.add_0_r in B1, B2.
+    rewrite (procpos_pop s s' e ops IPe IPe' IPo).
+    assert (Le : (cbcount (CbCheck c) l <= occ e ops)%nat).
+    { destruct (cbcount (CbCheck c) l) eqn:Cn; [lia|]. assert (Hin : In (CbCheck c) l) by (apply cbcount_in; lia).
+      destruct (CK _ Hin) as (cev2 & a2 & ops2 & n2 & H2 & K2 & L2). rewrite Hc0 in H2. injection H2 as <-.
+      rewrite Kc0 in K2. injection K2 as <- <- <-. lia. }
+    split; [lia|]. rewrite <- Oc0. intros O.
+    destruct (B2 O) as [D|(A & Q & F)]; [left; eapply detached_grows; eauto|right].
+    assert (Eq : cbcount (CbCheck c) l = occ e ops) by (eapply A; eassumption).
+    split; [|split; [lia|]].
+    + intros o oev lo Ho Co. rewrite G in Ho. destruct (Nat.eqb o e); [injection Ho as <-; discriminate|]. eapply A; eassumption.
+    + intros o oev Io Ho Co Fo. rewrite G in Ho. destruct (Nat.eqb o e) eqn:E.
+      * apply Nat.eqb_eq in E. subst o. right. split; [reflexivity|]. apply cbcount_in. rewrite Eq. apply occ_in, Io.
+      * destruct (F _ _ Io Ho Co Fo) as [K|(_ & [])]. left. exact K.
+  - eapply wl_grows; [exact GR|]. split.
+    + intros c Hin. destruct (CK _ Hin) as (cev & all & ops & n & Hc & Kc & Le). exists cev, all, ops, n.
+      split; [exact Hc|]. split; [exact Kc|]. apply occ_in. apply cbcount_in in Hin. lia.
+    + intros c Hin. eapply ci_build; eassumption.
+Qed.
+
+(* the _check callback of condition c, for the popped event e *)
+Lemma binv_cond_check X c e eev l s :
+  cinv X s -> get_event e s = Some eev -> cbs eev = None -> chk_ok s e c ->
+  binv (CbCheck c :: l) e s -> binv l e (cond_check c e s).
+Proof.
+  intros CI He Ce (cev & all & ops & n & Hc & Kc & Ie) B.
+  pose proof (ci_older _ _ CI _ _ _ _ _ Hc Kc _ Ie) as Lt. assert (Nce : c <> e) by lia.
+  assert (CNT : forall c0, cbcount (CbCheck c0) (CbCheck c :: l) = ((if Nat.eqb c0 c then 1 else 0) + cbcount (CbCheck c0) l)%nat).
+  { intros c0. rewrite cbcount_cons. cbn [cb_eqb]. reflexivity. }
+  destruct (out cev) as [oc|] eqn:Oc.
+  { (* c is already triggered: nothing happens *)
+    rewrite cond_check_noop by (right; right; exists cev; split; [exact Hc|left; congruence]).
+    intros c0 cev0 a0 ops0 n0 H0 K0. destruct (B _ _ _ _ _ H0 K0) as (B1 & B2). rewrite CNT in B1, B2.
+    split; [lia|]. intros O. assert (N0 : c0 <> c) by (intros ->; rewrite Hc in H0; injection H0 as <-; congruence).
+    apply Nat.eqb_neq in N0. rewrite N0 in B2. cbn [plus] in B2.
+    destruct (B2 O) as [D|(A & Q & F)]; [left; exact D|right]. split; [exact A|]. split; [exact Q|].
+    intros o oev Io Ho Co Fo. destruct (F _ _ Io Ho Co Fo) as [K|(-> & [H|H])]; auto.
+    injection H as ->. rewrite Nat.eqb_refl in N0. discriminate. }
+  rewrite (cond_check_eq c e s cev eev all ops n Hc He Oc Kc Nce). cbv zeta.
+  set (s0 := if is_failed eev then upd_event e ev_set_defused s else s).
+  set (s1 := upd_event c (check_upd all ops n (out eev)) s0).
+  assert (S' : forall s2, events s2 = events s1 -> binv l e s1 -> binv l e s2) by (intros; eapply binv_same_events; eauto).
+  assert (B1' : binv l e s1).
+  2:{ destruct (check_triggers all ops n (out eev)); [apply S'; [reflexivity|exact B1']|exact B1']. }
+  (* pointwise description of s1 *)
+  assert (G : forall x ev', get_event x s1 = Some ev' ->
+            exists ev, get_event x s = Some ev /\ cbs ev' = cbs ev /\
+              (x <> c -> kind ev' = kind ev /\ out ev' = out ev) /\
+              (x = c -> ev = cev /\ kind ev' = KCond all ops (S n) /\
+                        (out ev' = None -> is_failed eev = false))).
+  { intros x ev'. unfold s1. rewrite get_upd. destruct (Nat.eqb x c) eqn:E.
+    - apply Nat.eqb_eq in E. subst x. assert (Hc0 : get_event c s0 = Some cev).
+      { unfold s0. destruct (is_failed eev); [rewrite get_upd_other by exact Nce|]; exact Hc. }
+      rewrite Hc0. cbn. intros H; injection H as <-. exists cev. split; [exact Hc|].
+      unfold check_upd, is_failed. destruct (out eev) as [[v|x]|];
+        [destruct (cond_evaluate all (length ops) (S n))| |destruct (cond_evaluate all (length ops) (S n))]; cbn;
+        (split; [reflexivity|]); (split; [congruence|]); intros _; (split; [reflexivity|]); (split; [reflexivity|]); congruence.
+    - apply Nat.eqb_neq in E. unfold s0. destruct (is_failed eev).
+      + rewrite get_upd. destruct (Nat.eqb x e) eqn:E2.
+        * apply Nat.eqb_eq in E2. subst x. rewrite He. cbn. intros H; injection H as <-. exists eev. cbn. repeat split; auto; congruence.
+        * intros H. exists ev'. repeat split; auto; congruence.
+      + intros H. exists ev'. repeat split; auto; congruence. }
+  assert (IP : forall o, is_proc s1 o = is_proc s o).
+  { intros o. unfold is_proc. destruct (get_event o s1) as [ev'|] eqn:E1.
+    - destruct (G _ _ E1) as (ev & E0 & C & _). rewrite E0. unfold is_processed. rewrite C. reflexivity.
+    - destruct (get_event o s) as [ev|] eqn:E0; [|reflexivity]. exfalso.
+      apply get_lt in E0. apply nth_error_None in E1. unfold s1, s0 in E1.
+      rewrite upd_event_length in E1. destruct (is_failed eev); rewrite ?upd_event_length in E1; lia. }
+  assert (GR : grows s s1).
+  { apply grows_trans with (s2 := s0).
+    - unfold s0. destruct (is_failed eev); [apply grows_upd; intros; apply ev_le_set_defused|apply grows_refl].
+    - unfold s1. apply grows_upd. intros ev0 H0. unfold check_upd.
+      assert (KL : kind_le (kind ev0) (KCond all ops (S n))).
+      { assert (ev0 = cev). { unfold s0 in H0. destruct (is_failed eev); [rewrite get_upd_other in H0 by exact Nce|]; congruence. }
+        subst ev0. right. exists all, ops, n, (S n). auto. }
+      destruct (out eev) as [[v|x]|]; [destruct (cond_evaluate all (length ops) (S n))| |destruct (cond_evaluate all (length ops) (S n))];
+        repeat split; cbn; auto; try discriminate. }
+  intros c0 cev0' a0 ops0 n0 H0 K0. destruct (G _ _ H0) as (cev0 & H00 & C0 & Gn & Gc).
+  rewrite (procpos_ext s s1 ops0) by (intros; apply IP).
+  destruct (Nat.eq_dec c0 c) as [->|N0].
+  - (* the condition itself *)
+    destruct (Gc eq_refl) as (-> & K1 & O1). rewrite K0 in K1. injection K1 as -> -> ->.
+    destruct (B _ _ _ _ _ Hc Kc) as (B1 & B2). rewrite CNT, Nat.eqb_refl in B1, B2.
+    split; [lia|]. intros O. specialize (O1 O).
+    destruct (B2 Oc) as [D|(A & Q & F)]; [left; eapply detached_grows; eauto|right].
+    split; [|split; [lia|]].
+    + intros o oev lo Ho Co. destruct (G _ _ Ho) as (oev0 & Ho0 & Cb0 & _). rewrite Cb0 in Co. eapply A; eassumption.
+    + intros o oev Io Ho Co Fo. destruct (G _ _ Ho) as (oev0 & Ho0 & Cb0 & Gn0 & _).
+      assert (No : o <> c) by (pose proof (ci_older _ _ CI _ _ _ _ _ Hc Kc _ Io); lia).
+      destruct (Gn0 No) as (Ko & Oo). rewrite Cb0 in Co.
+      assert (Fo0 : is_failed oev0 = true) by (unfold is_failed in *; rewrite <- Oo; exact Fo).
+      destruct (F _ _ Io Ho0 Co Fo0) as [(q & K)|(-> & _)]; [left; exists q; congruence|].
+      rewrite He in Ho0. injection Ho0 as <-. congruence.
+  - (* another condition *)
+    destruct (Gn N0) as (K1 & O1). rewrite K1 in K0. destruct (B _ _ _ _ _ H00 K0) as (B1 & B2).
+    rewrite CNT in B1, B2. apply Nat.eqb_neq in N0. rewrite N0 in B1, B2. cbn [plus] in B1, B2.
+    split; [exact B1|]. rewrite O1. intros O.
+    destruct (B2 O) as [D|(A & Q & F)]; [left; eapply detached_grows; eauto|right].
+    split; [|split; [exact Q|]].
+    + intros o oev lo Ho Co. destruct (G _ _ Ho) as (oev0 & Ho0 & Cb0 & _). rewrite Cb0 in Co. eapply A; eassumption.
+    + intros o oev Io Ho Co Fo. destruct (G _ _ Ho) as (oev0 & Ho0 & Cb0 & Gn0 & Gc0). rewrite Cb0 in Co.
+      destruct (Nat.eq_dec o c) as [->|No].
+      * (* the operand is c itself: a condition, whose failure status may just have changed; it is not processed *)
+        exfalso. destruct (Gc0 eq_refl) as (-> & _). pose proof (ci_proc_trig _ _ CI _ _ Hc Co). congruence.
+      * destruct (Gn0 No) as (Ko & Oo).
+        assert (Fo0 : is_failed oev0 = true) by (unfold is_failed in *; rewrite <- Oo; exact Fo).
+        destruct (F _ _ Io Ho0 Co Fo0) as [(q & K)|(-> & [H|H])]; [left; exists q; congruence| |right; auto].
+        injection H as ->. rewrite Nat.eqb_refl in N0. discriminate.
+Qed.
+
+(* what a sequence of _check removals (for the conditions in D) does to the events *)
+Definition rmrel (D : evid -> Prop) (s s' : state) : Prop :=
+  forall x, match get_event x s, get_event x s' with
+            | Some a, Some b => kind b = kind a /\ out b = out a /\ defused b = defused a /\ (cbs a = None <-> cbs b = None) /\
+                                (forall l0 l1, cbs a = Some l0 -> cbs b = Some l1 ->
+                                   forall c0, ~ D c0 -> cbcount (CbCheck c0) l1 = cbcount (CbCheck c0) l0)
+            | None, None => True
+            | _, _ => False
+            end.
+
+Lemma rmrel_refl D s : rmrel D s s.
+Proof. intros x. destruct (get_event x s) as [a|]; [|exact I]. repeat split; auto. intros l0 l1 H0 H1. congruence. Qed.
+
+Lemma rmrel_trans D s1 s2 s3 : rmrel D s1 s2 -> rmrel D s2 s3 -> rmrel D s1 s3.
+Proof.
+  intros R1 R2 x. specialize (R1 x). specialize (R2 x).
+  destruct (get_event x s1) as [a|], (get_event x s2) as [b|], (get_event x s3) as [c|]; try contradiction; auto.
+  destruct R1 as (K1 & O1 & D1 & C1 & L1), R2 as (K2 & O2 & D2 & C2 & L2).
+  split; [congruence|]. split; [congruence|]. split; [congruence|]. split; [tauto|].
+  intros l0 l2 H0 H2 c0 N. destruct (cbs b) as [l1|] eqn:Cb.
+  - rewrite (L2 _ _ eq_refl H2 _ N). apply (L1 _ _ H0 eq_refl _ N).
+  - destruct C1 as [_ C1]. specialize (C1 eq_refl). congruence.
+Qed.
+
+Lemma rmrel_remove_check_from (D : evid -> Prop) d o s : D d -> rmrel D s (remove_check_from d o s).
+Proof.
+  intros Dd. unfold remove_check_from. destruct (get_event o s) as [oev|] eqn:Ho; [|apply rmrel_refl].
+  destruct (cbs oev) as [l|] eqn:Cl; [|apply rmrel_refl]. destruct (mem_cb (CbCheck d) l); [|apply rmrel_refl].
+  intros x. rewrite get_upd. destruct (Nat.eqb x o) eqn:E.
+  - apply Nat.eqb_eq in E. subst x. rewrite Ho. cbn. repeat split; auto; try (rewrite Cl; discriminate).
+    intros l0 l1 H0 H1 c0 N. rewrite Cl in H0. injection H0 as <-. injection H1 as <-.
+    apply cbcount_remove_other. intros E. injection E as ->. contradiction.
+  - destruct (get_event x s) as [a|]; [|exact I]. repeat split; auto. intros l0 l1 H0 H1. congruence.
+Qed.
+
+Lemma rmsteps_rmrel (D : evid -> Prop) s s' : rmsteps D s s' -> rmrel D s s'.
+Proof.
+  induction 1; [apply rmrel_refl|]. eapply rmrel_trans; [apply rmrel_remove_check_from; eassumption|eassumption].
+Qed.
+
+Lemma rmsteps_list (D : evid -> Prop) s s' :
+  rmsteps D s s' -> exists ds, (forall d, In d ds -> D d) /\ rmsteps (fun d => In d ds) s s'.
+Proof.
+  induction 1 as [s|d o s s' Dd RM (ds & Hds & IH)].
+  - exists []. split; [intros d []|constructor].
+  - exists (d :: ds). split; [intros d' [<-|H]; auto|].
+    econstructor; [left; reflexivity|]. eapply rmsteps_weaken; [|exact IH]. intros d' H. right. exact H.
+Qed.
+
+(* the _build_value callback of the popped condition e *)
+Lemma binv_cond_build X e eev l s :
+  cinv X s -> get_event e s = Some eev -> cbs eev = None -> binv l e s -> binv l e (fst (cond_build e s)).
+Proof.
+  intros CI He Ce B. unfold cond_build.
+  destruct (remove_checks (S e) e s) as [s1|] eqn:R; [|exact B].
+  pose proof (remove_checks_rm _ _ _ _ R) as RM.
+  destruct (rmsteps_list _ _ _ RM) as (ds & Hds & RM').
+  pose proof (rmsteps_rmrel _ _ _ RM') as RR.
+  assert (CI1 : cinv X s1).
+  { eapply rmsteps_ind_P; [|exact RM|exact CI]. intros; apply cinv_remove_check_from; assumption. }
+  assert (GR : grows s s1) by (eapply grows_remove_checks, R).
+  assert (IP : forall o, is_proc s1 o = is_proc s o).
+  { intros o. unfold is_proc. specialize (RR o). destruct (get_event o s) as [a|], (get_event o s1) as [b|]; try contradiction; auto.
+    destruct RR as (_ & _ & _ & C & _). unfold is_processed. destruct (cbs a), (cbs b); auto.
+    - destruct C as [_ C]. specialize (C eq_refl). discriminate.
+    - destruct C as [C _]. specialize (C eq_refl). discriminate. }
+  assert (B1 : binv l e s1).
+  { intros c cev' all ops n Hc Kc. pose proof (RR c) as Rc. rewrite Hc in Rc.
+    destruct (get_event c s) as [cev|] eqn:Hc0; [|contradiction]. destruct Rc as (K1 & O1 & _).
+    rewrite K1 in Kc. destruct (B _ _ _ _ _ Hc0 Kc) as (B1 & B2).
+    rewrite (procpos_ext s s1 ops) by (intros; apply IP). split; [exact B1|]. rewrite O1. intros O.
+    destruct (B2 O) as [D|(A & Q & F)]; [left; eapply detached_grows; eauto|].
+    destruct (in_dec Nat.eq_dec c ds) as [Hin|Hnin].
+    - (* c is nested below e: detached from now on *)
+      left. exists e. split; [eapply desc_grows; [exact GR|apply Hds, Hin]|]. split.
+      + intros ->. rewrite He in Hc0. injection Hc0 as <-. exact (ci_proc_trig _ _ CI _ _ He Ce O).
+      + rewrite IP. unfold is_proc, is_processed. rewrite He, Ce. reflexivity.
+    - right. split; [|split; [exact Q|]].
+      + intros o oev lo Ho Co. pose proof (RR o) as Ro. rewrite Ho in Ro.
+        destruct (get_event o s) as [oev0|] eqn:Ho0; [|contradiction]. destruct Ro as (_ & _ & _ & C & L).
+        destruct (cbs oev0) as [l0|] eqn:C0; [|destruct C as [C _]; specialize (C eq_refl); congruence].
+        rewrite (L _ _ eq_refl Co _ Hnin). eapply A; eassumption.
+      + intros o oev Io Ho Co Fo. pose proof (RR o) as Ro. rewrite Ho in Ro.
+        destruct (get_event o s) as [oev0|] eqn:Ho0; [|contradiction]. destruct Ro as (Ko & Oo & _ & C & _).
+        rewrite Ko. apply F; auto; [apply C, Co|]. unfold is_failed in *. rewrite <- Oo. exact Fo. }
+  destruct (get_event e s1) as [cev|] eqn:Hc; [|exact B1].
+  destruct (out cev) as [[v|x]|] eqn:Oc; try exact B1.
+  destruct (kind cev) eqn:Kc; try exact B1.
+  destruct (populate (S e) (events s1) ops); [|exact B1]. cbn [fst].
+  eapply binv_upd; [exact CI1|exact B1|exact Hc|..]; cbn; auto; try tauto.
+  - intros l2 l3 H2 H3 c0. rewrite H2 in H3. injection H3 as <-. reflexivity.
+  - left. rewrite Oc. reflexivity.
+Qed.
+
+(* ------------------------------------------------------------------------------------------------ *)
+(* the callback loop of a step *)
+
+Definition winv (X : list evid) (l : list cb) (e : evid) (s : state) : Prop :=
+  cinv X s /\ procs_wf s /\ processed_in e s /\ wl l e s.
+
+Lemma iptrace_winv l e X' s s' : iptrace X' s s' -> forall X, winv X l e s ->
+  winv (X ++ X') l e s' /\ (binv l e s -> binv l e s').
+Proof.
+  induction 1 as [|x X' s s1 s2 P T IH]; intros X W; [rewrite app_nil_r; auto|].
+  destruct W as (CI & PW & PE & WL).
+  assert (W1 : winv (X ++ lab x) l e s1).
+  { pose proof (iprim_grows _ _ _ P) as G. split; [eapply iprim_cinv; eassumption|].
+    split; [eapply prim_procs_wf; [apply p_inner, P|exact PW]|]. split; [eapply grows_processed; eauto|eapply wl_grows; eauto]. }
+  destruct (IH _ W1) as (W2 & B2). rewrite app_assoc. split; [exact W2|].
+  intros B. apply B2. eapply iprim_binv; eassumption.
+Qed.
+
+Lemma xtrace_winv codes l e X' s s' : xtrace codes X' s s' -> forall X, winv X l e s ->
+  winv (X ++ X') l e s' /\ (binv l e s -> binv l e s').
+Proof. intros T. apply iptrace_winv. eapply xtrace_iptrace, T. Qed.
+
+Lemma winv_tail X cb l e s : winv X (cb :: l) e s -> winv X l e s.
+Proof. intros (A & B & C & D). split; [exact A|]. split; [exact B|]. split; [exact C|eapply wl_tail, D]. Qed.
+
+Lemma run_cb_winv codes fuel X cb l e s s' r :
+  winv X (cb :: l) e s -> run_cb fuel codes e cb s = (s', r) ->
+  exists X', etrace codes X' s s' /\ winv (X ++ X') l e s' /\ (binv (cb :: l) e s -> binv l e s').
+Proof.
+  intros W R. pose proof W as (CI & PW & (eev & He & Ce) & WL).
+  assert (ViaX : xsteps codes s s' -> (forall c, cb <> CbCheck c) ->
+            exists X', etrace codes X' s s' /\ winv (X ++ X') l e s' /\ (binv (cb :: l) e s -> binv l e s')).
+  { intros (X' & T) N. exists X'. split; [rewrite <- (app_nil_r X'); econstructor; [apply es_x, T|constructor]|].
+    destruct (xtrace_winv codes (cb :: l) e X' s s' T X W) as (W' & B').
+    split; [eapply winv_tail, W'|]. intros B. eapply binv_drop; [exact N|apply B', B]. }
+  destruct cb; cbn [run_cb] in R.
+  - apply ViaX; [|discriminate]. pose proof (xs_resume_proc codes fuel p e s PW) as Xs. rewrite R in Xs. exact Xs.
+  - injection R as <- <-. assert (CK : chk_ok s e c) by (apply (proj1 WL); left; reflexivity).
+    exists []. split; [|rewrite app_nil_r; split].
+    + rewrite <- (app_nil_r []). econstructor; [eapply es_check; [exact He|exact Ce|apply chk_ok_opnd, CK]|constructor].
+    + pose proof (grows_cond_check c e s) as G. split; [eapply cinv_cond_check; [exact CI|exact He|exact Ce|apply chk_ok_opnd, CK]|].
+      split; [eapply prim_procs_wf; [eapply p_check; [exact He|exact Ce|apply chk_ok_opnd, CK]|exact PW]|].
+      split; [eapply grows_processed; [exact G|exists eev; auto]|eapply wl_grows; [exact G|eapply wl_tail, WL]].
+    + intros B. eapply binv_cond_check; eassumption.
+  - assert (c = e) by (apply (proj2 WL); left; reflexivity). subst c.
+    assert (s' = fst (cond_build e s)) by (rewrite R; reflexivity). subst s'.
+    exists []. split; [|rewrite app_nil_r; split].
+    + rewrite <- (app_nil_r []). econstructor; [apply es_build|constructor].
+    + pose proof (grows_cond_build e s) as G. split; [apply cinv_cond_build, CI|].
+      split; [eapply prim_procs_wf; [apply p_build|exact PW]|].
+      split; [eapply grows_processed; [exact G|exists eev; auto]|eapply wl_grows; [exact G|eapply wl_tail, WL]].
+    + intros B. eapply binv_cond_build; [exact CI|exact He|exact Ce|]. eapply binv_drop; [|exact B]. discriminate.
+  - apply ViaX; [|discriminate]. pose proof (xs_do_interruption codes fuel i s PW) as Xs. rewrite R in Xs. exact Xs.
+  - apply ViaX; [|discriminate]. assert (s' = s) by (rewrite <- (stop_cb_state e s), R; reflexivity). subst s'. apply xsteps_refl.
+  - injection R as <- <-. apply ViaX; [|discriminate]. apply xsteps_prim, p_frame. repeat split.
+Qed.
+
+Lemma run_callbacks_winv codes fuel e l : forall X s s' r,
+  winv X l e s -> run_callbacks fuel codes e l s = (s', r) ->
+  exists X', etrace codes X' s s' /\ cinv (X ++ X') s' /\ procs_wf s' /\ (r = ROk -> binv l e s -> binv [] e s').
+Proof.
+  induction l as [|cb t IH]; intros X s s' r W R; cbn [run_callbacks] in R.
+  - injection R as <- <-. exists []. rewrite app_nil_r. destruct W as (A & B & _). split; [constructor|auto].
+  - destruct (run_cb fuel codes e cb s) as [s1 r1] eqn:R1.
+    destruct (run_cb_winv codes fuel X cb t e s s1 r1 W R1) as (X1 & T1 & W1 & B1).
+    destruct r1; try (injection R as <- <-; exists X1; destruct W1 as (A & B & _); split; [exact T1|]; split; [exact A|]; split; [exact B|discriminate]).
+    destruct (IH _ _ _ _ W1 R) as (X2 & T2 & C2 & P2 & B2). exists (X1 ++ X2). split; [eapply et_app; eassumption|].
+    rewrite app_assoc. split; [exact C2|]. split; [exact P2|]. intros Er B. apply B2; [exact Er|apply B1, B].
+Qed.
+
+(* ------------------------------------------------------------------------------------------------ *)
+(* steps *)
+
+Lemma binv_nil_irrel e e' s : binv [] e s -> binv [] e' s.
+Proof.
+  intros B c cev all ops n Hc Kc. destruct (B _ _ _ _ _ Hc Kc) as (B1 & B2). split; [exact B1|]. intros O.
+  destruct (B2 O) as [D|(A & Q & F)]; [left; exact D|right]. split; [exact A|]. split; [exact Q|].
+  intros o oev Io Ho Co Fo. destruct (F _ _ Io Ho Co Fo) as [K|(_ & [])]. left. exact K.
+Qed.
+
+(* the invariant at step boundaries *)
+Definition bnd (s : state) : Prop := binv [] 0%nat s.
+
+(* a step whose callback loop ran to its end (no exception escaped from the middle of the loop) *)
+Definition clean_step (fuel : nat) (codes : list prog) (s s' : state) (e : evid) : Prop :=
+  exists m rest ev l, pop_min (agenda s) = Some (m, rest) /\ e = e_ev m /\ get_event e s = Some ev /\ cbs ev = Some l /\
+                      run_callbacks fuel codes e l (popped m rest s) = (s', ROk).
+
+Lemma clean_step_result fuel codes s s' e : clean_step fuel codes s s' e -> step fuel codes s = (s', check_failure e s').
+Proof.
+  intros (m & rest & ev & l & Pm & -> & He & Cl & R). unfold step. rewrite Pm.
+  change (get_event (e_ev m) (pop_state m rest s)) with (get_event (e_ev m) s). rewrite He, Cl.
+  fold (popped m rest s). rewrite R. reflexivity.
+Qed.
+
+Lemma step_ok_clean fuel codes s s' : step fuel codes s = (s', ROk) -> exists e, clean_step fuel codes s s' e.
+Proof.
+  intros H. apply step_unfold in H. destruct H as [(_ & _ & H)|(m & rest & Pm & [(_ & _ & H)|[(ev & _ & _ & _ & H)|(ev & l & r2 & He & Cl & R & H)]])]; try discriminate.
+  exists (e_ev m), m, rest, ev, l. destruct r2; try discriminate. auto.
+Qed.
+
+Lemma step_winv codes fuel X s s' r :
+  cinv X s -> procs_wf s -> step fuel codes s = (s', r) ->
+  exists X', etrace codes X' s s' /\ cinv (X ++ X') s' /\ procs_wf s'.
+Proof.
+  intros CI PW H. apply step_unfold in H. destruct H as [(_ & -> & _)|(m & rest & Pm & H)].
+  { exists []. rewrite app_nil_r. split; [constructor|auto]. }
+  assert (T1 : etrace codes [] s (popped m rest s)).
+  { rewrite <- (app_nil_r []). econstructor; [apply es_pop, Pm|constructor]. }
+  assert (C1 : cinv X (popped m rest s)) by (apply cinv_popped; assumption).
+  assert (P1 : procs_wf (popped m rest s)) by (eapply prim_procs_wf; [apply p_pop, Pm|exact PW]).
+  destruct H as [(_ & -> & _)|[(ev & _ & _ & -> & _)|(ev & l & r2 & He & Cl & R & _)]];
+    try solve [exists []; rewrite app_nil_r; auto].
+  assert (W : winv X l (e_ev m) (popped m rest s)).
+  { split; [exact C1|]. split; [exact P1|]. split; [eapply popped_processed, He|].
+    eapply wl_grows; [eapply prim_grows, p_pop, Pm|]. split.
+    - intros c Hin. destruct (ci_check _ _ CI _ _ _ _ He Cl Hin) as (cev & all & ops & n & Hc & Kc & Le).
+      exists cev, all, ops, n. split; [exact Hc|]. split; [exact Kc|]. apply occ_in. apply cbcount_in in Hin. lia.
+    - intros c Hin. exact (proj1 (ci_build _ _ CI _ _ _ _ He Cl Hin)). }
+  destruct (run_callbacks_winv codes fuel _ _ _ _ _ _ W R) as (X' & T & C & P & _).
+  exists X'. split; [|auto]. change X' with ([] ++ X'). eapply et_app; [exact T1|exact T].
+Qed.
+
+Lemma clean_step_bnd codes fuel X s s' e : cinv X s -> procs_wf s -> bnd s -> clean_step fuel codes s s' e -> bnd s'.
+Proof.
+  intros CI PW B (m & rest & ev & l & Pm & -> & He & Cl & R).
+  destruct (binv_popped X 0%nat m rest s ev l CI B Pm He Cl) as (B1 & W1).
+  assert (W : winv X l (e_ev m) (popped m rest s)).
+  { split; [apply cinv_popped; assumption|]. split; [eapply prim_procs_wf; [apply p_pop, Pm|exact PW]|].
+    split; [eapply popped_processed, He|exact W1]. }
+  destruct (run_callbacks_winv codes fuel _ _ _ _ _ _ W R) as (X' & _ & _ & _ & Bf).
+  eapply binv_nil_irrel. apply Bf; [reflexivity|exact B1].
+Qed.
+
+Lemma reach_step codes X fuel s s' r : reach codes X s -> step fuel codes s = (s', r) -> exists X', reach codes (X ++ X') s'.
+Proof.
+  intros R H. destruct (step_winv codes fuel X s s' r (reach_cinv _ _ _ R) (reach_procs_wf _ _ _ R) H) as (X' & T & _).
+  eapply reach_esteps; [exact R|exists X'; exact T].
+Qed.
+
+Lemma reach_run_loop codes fuel u n : forall X s, reach codes X s -> exists X', reach codes (X ++ X') (fst (run_loop n fuel codes u s)).
+Proof.
+  induction n as [|n IH]; intros X s R; cbn [run_loop fst]; [exists []; rewrite app_nil_r; exact R|].
+  destruct (step fuel codes s) as [s1 r] eqn:S. destruct (reach_step _ _ _ _ _ _ R S) as (X1 & R1).
+  destruct r; try (exists X1; exact R1). destruct (IH _ _ R1) as (X2 & R2). exists (X1 ++ X2). rewrite app_assoc. exact R2.
+Qed.
+
+Lemma reach_run codes X fuel u s : reach codes X s -> exists X', reach codes (X ++ X') (fst (run fuel codes u s)).
+Proof.
+  intros R. unfold run. destruct (run_prelude u s) as [[s1 r]|s1] eqn:P.
+  - apply run_prelude_inl in P. subst s1. exists []. rewrite app_nil_r. exact R.
+  - destruct (reach_esteps _ _ _ _ R (esteps_x _ _ _ (xs_run_prelude codes u s s1 P))) as (X1 & R1).
+    destruct (reach_run_loop codes fuel u fuel _ _ R1) as (X2 & R2). exists (X1 ++ X2). rewrite app_assoc. exact R2.
+Qed.
+
+(* clean executions: module-level code, run() preludes, and steps whose callback loop completed *)
+Inductive creach (codes : list prog) : list evid -> state -> Prop :=
+| cr_init t0 : creach codes [] (init_state t0)
+| cr_x X X' s s' : creach codes X s -> xtrace codes X' s s' -> creach codes (X ++ X') s'
+| cr_step X X' fuel s s' e : creach codes X s -> clean_step fuel codes s s' e -> etrace codes X' s s' ->
+                             creach codes (X ++ X') s'.
+
+Lemma creach_reach codes X s : creach codes X s -> reach codes X s.
+Proof.
+  induction 1 as [t0|X X' s s' C IH T|X X' fuel s s' e C IH CS T].
+  - apply reach_init.
+  - destruct IH as (t0 & T0). exists t0. eapply et_app; [exact T0|]. rewrite <- (app_nil_r X'). econstructor; [apply es_x, T|constructor].
+  - destruct IH as (t0 & T0). exists t0. eapply et_app; eassumption.
+Qed.
+
+Lemma bnd_init t0 : bnd (init_state t0).
+Proof. intros c cev all ops n H. rewrite get_init in H. discriminate. Qed.
+
+Lemma iptrace_binv l e X' s s' : iptrace X' s s' -> forall X, cinv X s -> wl l e s -> binv l e s -> binv l e s'.
+Proof.
+  induction 1 as [|x X' s s1 s2 P T IH]; intros X CI W B; [exact B|].
+  eapply (IH (X ++ lab x)).
+  - eapply iprim_cinv; eassumption.
+  - eapply wl_grows; [eapply iprim_grows, P|exact W].
+  - eapply iprim_binv; eassumption.
+Qed.
+
+Theorem creach_bnd codes X s : creach codes X s -> bnd s.
+Proof.
+  induction 1 as [t0|X X' s s' C IH T|X X' fuel s s' e C IH CS T].
+  - apply bnd_init.
+  - pose proof (creach_reach _ _ _ C) as R.
+    eapply iptrace_binv; [eapply xtrace_iptrace, T|apply (reach_cinv _ _ _ R)|apply wl_nil|exact IH].
+  - pose proof (creach_reach _ _ _ C) as R.
+    eapply clean_step_bnd; [apply (reach_cinv _ _ _ R)|apply (reach_procs_wf _ _ _ R)|exact IH|exact CS].
+Qed.
+
+(* every clean step is available to [creach] *)
+Lemma creach_step codes X fuel s s' e :
+  creach codes X s -> clean_step fuel codes s s' e -> exists X', creach codes (X ++ X') s'.
+Proof.
+  intros C CS. pose proof (creach_reach _ _ _ C) as R.
+  destruct (step_winv codes fuel X s s' _ (reach_cinv _ _ _ R) (reach_procs_wf _ _ _ R) (clean_step_result _ _ _ _ _ CS)) as (X' & T & _).
+  exists X'. eapply cr_step; eassumption.
+Qed.
+
+Lemma creach_exec_top {A} codes X (f : frag A) s : creach codes X s -> exists X', creach codes (X ++ X') (fst (exec_top codes f s)).
+Proof. intros C. destruct (xs_run_frag codes f s) as (X' & T). exists X'. eapply cr_x; eassumption. Qed.
+
+Lemma creach_prelude codes X u s s1 : creach codes X s -> run_prelude u s = inr s1 -> exists X', creach codes (X ++ X') s1.
+Proof. intros C P. destruct (xs_run_prelude codes u s s1 P) as (X' & T). exists X'. eapply cr_x; eassumption. Qed.
